@@ -330,6 +330,9 @@ def run_case(case, seed):
     kw = dict(Efermi=Ef, smoother=smoother)
     if pair in INTERNAL_ONLY and not s.force_internal_terms_only:
         kw["kwargs_formula"] = {"external_terms": False}
+    use_factor = bool(case.get("use_factor", True))
+    if not use_factor:
+        kw["use_factor"] = False        # BOTH members of the pair: "keep only the sign of the prefactor"
     names = [sea_name] + surf_names
     data = {}
     with bh.case_tmpdir() as tmp:
